@@ -273,7 +273,42 @@ fn check_tuple(v: &[f64]) -> Option<String> {
     None
 }
 
+/// the three entry points once more, called from a destructor that runs while the thread is already
+/// unwinding from an unrelated panic (scope guards do that): same answers as in a normal call
+fn check_number_while_unwinding(x: f64) -> Option<String> {
+    use std::cell::Cell;
+    use std::panic::{catch_unwind, AssertUnwindSafe};
+    struct Guard<'a>(f64, &'a Cell<Option<(bool, bool, bool)>>);
+    impl Drop for Guard<'_> {
+        fn drop(&mut self) {
+            let x = self.0;
+            let is_valid = EvidentNumber::is_valid(&x);
+            let try_ok = EvidentNumber::try_validate(&x).is_ok();
+            let validate_returned = catch_unwind(AssertUnwindSafe(|| {
+                let _ = EvidentNumber::validate(&x);
+            }))
+            .is_ok();
+            self.1.set(Some((is_valid, try_ok, validate_returned)));
+        }
+    }
+    crate::guard::install_panic_hook();
+    let seen = Cell::new(None);
+    let _ = catch_unwind(AssertUnwindSafe(|| {
+        let _g = Guard(x, &seen);
+        panic!("unrelated panic raised by the harness");
+    }));
+    let want = valid(x);
+    match seen.get() {
+        Some((a, b, c)) if a == want && b == want && c == want => None,
+        Some((a, b, c)) => Some(format!("inside a destructor running during an unrelated unwind: is_valid = {}, try_validate is {}, validate {} - but 0 <= x <= 1 is {}", a, if b { "Ok" } else { "Err" }, if c { "returned" } else { "panicked" }, want)),
+        None => Some("the destructor did not run".into()),
+    }
+}
+
 fn check_number(x: f64) -> Option<String> {
+    if let Some(w) = check_number_while_unwinding(x) {
+        return Some(w);
+    }
     let want = valid(x);
     let a = match observe(|| EvidentNumber::is_valid(&x)) {
         Obs::Ret(a) => a,
